@@ -241,8 +241,19 @@ class Two(Packet):
            "From Bisturi Require Import Base.Bytes Kernel.IntCodec Kernel.Align Kernel.DataK Model.Value Model.Decl Model.Unpack Model.Pack Model.Init "
            "Model.Canon Model.Heap.\nImport ListNotations. Open Scope Z_scope.\n"
            "Definition flat (l : list (list Z)) : list Z := flat_map (fun x => x ++ [-9]) l.\n"
-           "Definition hist (host : bool) (tbl : list (cid * pclass)) (names : list Z) (ops : list wop) : list Z :=\n"
-           "  let ct := mk_ctab tbl in (if ct_fresh ct then 1 else 0) :: (-9) :: flat (w_history host ct w_empty names ops).\n")
+           "Definition tree_ok (ct : ctab) (w : world) (r : Z) (want : option cval) : Z :=\n"
+           "  match root_get (roots w) r, want with\n"
+           "  | Some a, Some c => match read_tree RFUEL (hp w) (HRef a) with Some v => if cval_eqb (canon ct v) c then 1 else 0 | None => 0 end\n"
+           "  | None, None => 1\n  | _, _ => 0\n  end.\n"
+           "Fixpoint hist_v (host : bool) (ct : ctab) (w : world) (names : list Z) (ops : list wop) (wants : list (list (option cval))) : list (list Z) :=\n"
+           "  match ops, wants with\n"
+           "  | o :: r, wt :: wr =>\n"
+           "      let w' := w_run1 host ct w o in\n"
+           "      ((match w_step host ct w o with Some _ => 1 | None => 0 end) :: observe ct w' names ++ (-7) :: map (fun p => tree_ok ct w' (fst p) (snd p)) (combine names wt))\n"
+           "        :: hist_v host ct w' names r wr\n"
+           "  | _, _ => []\n  end.\n"
+           "Definition hist (host : bool) (tbl : list (cid * pclass)) (names : list Z) (ops : list wop) (wants : list (list (option cval))) : list Z :=\n"
+           "  let ct := mk_ctab tbl in (if ct_fresh ct then 1 else 0) :: (-9) :: flat (hist_v host ct w_empty names ops wants).\n")
     files, index = [], []
     gids = list(range(len(metas)))
     for part_i, part in enumerate(shard(gids, max(1, len(gids) // NPROC + 1))):
@@ -256,7 +267,10 @@ class Two(Packet):
                     continue
                 names = sorted({int(op[1][1:]) for op in h if op[0] in ('new', 'parse', 'reparse')})
                 text.append(f"Definition H{gi}_{hi} : list wop := [{'; '.join(mops)}].\n")
-                calls.append(f"hist {'true' if host else 'false'} T{gi} [{'; '.join(map(str, names))}] H{gi}_{hi} ++ [-8]")
+                wants = "[" + "; ".join("[" + "; ".join(("(Some " + decl.cq_canon(cv) + ")") if cv is not None else "None" for cv in ob['canon']) + "]"
+                                        for ob in flat[gi]['observations'][hi]) + "]"
+                text.append(f"Definition W{gi}_{hi} : list (list (option cval)) := {wants}.\n")
+                calls.append(f"hist {'true' if host else 'false'} T{gi} [{'; '.join(map(str, names))}] H{gi}_{hi} W{gi}_{hi} ++ [-8]")
                 index.append((gi, hi))
         text.append("Eval vm_compute in (" + (" ++ ".join(calls) if calls else "(@nil Z)") + ").\n")
         files.append((f"heap_{part_i}", "".join(text)))
@@ -296,6 +310,14 @@ class Two(Packet):
         dist['heap_user_shared'] += any(op[0] == 'share' for op in hs[hi])
         for k, (om, oi) in enumerate(zip(obs_m, obs_i)):
             dist['heap_steps'] += 1
+            oi = oi['seq']
+            cut = om.index(-7)
+            om, trees = om[:cut], om[cut + 1:]
+            if any(t != 1 for t in trees):
+                heap_dis.append(dict(kind='correspondence', what='Model/Heap.v and bisturi differ on the VALUE of a live packet after this operation (tree read back from the heap vs the attributes of the packet)',
+                                     classes="".join(decl.py_class(c, pc) for c, pc in sorted(table.items())), history=hs[hi][:k + 1],
+                                     per_packet_agreement=trees, implementation=flat[gi]['observations'][hi][k]['canon']))
+                break
             if [om[0]] + norm(om[1:]) != [oi[0]] + norm(oi[1:]):
                 heap_dis.append(dict(kind='correspondence', what='Model/Heap.v and bisturi differ on which (packet, path) pairs are the same object after this operation (or on whether it raises)',
                                      classes="".join(decl.py_class(c, pc) for c, pc in sorted(table.items())), history=hs[hi][:k + 1],
